@@ -78,7 +78,7 @@ static void xe_special(const xv_req *r, xv_resp *o, xrl_error **e) {
 }
 
 static int xe_main(int argc, char **argv) {
-  FILE *f; long n, k; char *sbuf = NULL; long slen = 0;
+  FILE *f; long n, k; char *sbuf = NULL; long slen = 0; int noslot;
   xv_req *rq; xv_resp *rs;
   if (argc < 6) { fprintf(stderr, "usage: xrlmon exec req str resp msg\n"); return 2; }
   f = fopen(argv[2], "rb"); if (!f) { perror(argv[2]); return 2; }
@@ -92,10 +92,11 @@ static int xe_main(int argc, char **argv) {
   { long p = 0; int j = 0; while (p < slen) { xe_str[j++] = sbuf + p; p += strlen(sbuf + p) + 1; } }
   rs = calloc(n + 1, sizeof(xv_resp));
   if (getenv("XV_XRAYINIT")) XRayInit();
+  noslot = getenv("XV_NOSLOT") != NULL;     /* call the generated functions WITHOUT an error slot (status is then always 0) */
   for (k = 0; k < n; k++) {
     xrl_error *e = NULL; const xv_req *r = &rq[k]; xv_resp *o = &rs[k];
     o->msg = -1;
-    if (r->fn >= 0 && r->fn < XV_NFN) o->v[0] = xv_call(r->fn, r->i, r->d, xe_s(r->s), &e);
+    if (r->fn >= 0 && r->fn < XV_NFN) o->v[0] = xv_call(r->fn, r->i, r->d, xe_s(r->s), noslot ? NULL : &e);
     else if (r->fn >= 1000 && r->fn < XS_END) xe_special(r, o, &e);
     else o->status = 16;
     if (e) { o->status |= 1; o->code = (int)e->code; o->msg = xe_msgid(e->message); xrl_error_free(e); }
